@@ -40,30 +40,32 @@ Section O.
       destruct (oquit o || negb (fits cap_n cap_s o b)); [exact IH | apply K; reflexivity].
     - destruct (oquit o || negb (fits cap_n cap_s o b)); exact IH.
     - destruct (take_pend id (opend o)) as [[b pd]|]; [|exact IH].
-      destruct (stopped (ocore o)); [exact IH | apply K; reflexivity].
+      destruct (stopped (ocore o) || quitf (ocore o)); [exact IH | apply K; reflexivity].
     - destruct (negb (oquit o)); [exact IH|]. destruct (take_pend id (opend o)) as [[b pd]|]; [|exact IH].
       destruct fx; exact IH.
-    - exact IH.
+    - exact (K o SQuit eq_refl eq_refl).
   Qed.
 
   (* core steps other than SEnq never increase what the core holds; SEnq adds the batch or nothing *)
   Lemma core_held_mono : forall s x, (forall b, x <> SEnq b) ->
     held_n (pstep_run s x) <= held_n s /\ held_s (pstep_run s x) <= held_s s.
   Proof.
-    intros s x H. destruct x as [b | bid pos | | ]; simpl.
+    intros s x H. destruct x as [b | bid pos | | | | ]; simpl.
     - exfalso. apply (H b). reflexivity.
     - unfold arrive. destruct (stopped s); simpl; lia.
     - apply consume_held.
     - unfold Processor.stop. destruct (stopped s); [lia|]. simpl.
       match goal with |- context [fold_left apply_out ?l ?s0] => pose proof (frame_fold_apply l s0) as F end.
-      destruct F as [_ [_ [_ [A B]]]]. destruct (queue s); simpl in *; lia.
+      destruct F as [_ [_ [_ [A B]]]]. destruct (queue s); [|destruct (quitf s)]; simpl in *; lia.
+    - unfold quit. destruct (stopped s); simpl; lia.
+    - unfold abort. destruct (stopped s || negb (quitf s)); [lia|]. destruct (queue s); simpl; lia.
   Qed.
   Lemma core_enq_held : forall s b,
     (held_n (Processor.enqueue cap_n cap_s s b) = held_n s /\ held_s (Processor.enqueue cap_n cap_s s b) = held_s s)
     \/ (held_n (Processor.enqueue cap_n cap_s s b) = held_n s + batch_num b
         /\ held_s (Processor.enqueue cap_n cap_s s b) = held_s s + batch_size b).
   Proof.
-    intros s b. unfold Processor.enqueue. destruct (stopped s); [left; auto|].
+    intros s b. unfold Processor.enqueue. destruct (quitf s || stopped s); [left; auto|].
     destruct (_ || _); [left | right]; simpl; auto.
   Qed.
 
@@ -74,7 +76,7 @@ Section O.
     intros fx h0 steps. induction steps as [|x steps IH] using rev_ind; [unfold osem_n, osem_s; simpl; lia|].
     rewrite orun_snoc. set (o := orun fx h0 steps) in *. unfold osem_n, osem_s in *.
     destruct x as [y | b | id | id | ]; simpl.
-    - destruct y as [b | bid pos | | ].
+    - destruct y as [b | bid pos | | | | ].
       + destruct (oquit o || negb (fits cap_n cap_s o b)) eqn:E; [exact IH|].
         apply orb_false_iff in E. destruct E as [_ E]. apply negb_false_iff in E. unfold fits in E.
         apply negb_true_iff, orb_false_iff in E. destruct E as [E1 E2]. apply N.ltb_ge in E1, E2.
@@ -83,6 +85,8 @@ Section O.
       + simpl. destruct (core_held_mono (ocore o) (SArrive bid pos)) as [A B]; [intros; discriminate|]. simpl in *. lia.
       + simpl. destruct (core_held_mono (ocore o) SConsume) as [A B]; [intros; discriminate|]. simpl in *. lia.
       + simpl. destruct (core_held_mono (ocore o) SStop) as [A B]; [intros; discriminate|]. simpl in *. lia.
+      + simpl. destruct (core_held_mono (ocore o) SQuit) as [A B]; [intros; discriminate|]. simpl in *. lia.
+      + simpl. destruct (core_held_mono (ocore o) SAbort) as [A B]; [intros; discriminate|]. simpl in *. lia.
     - destruct (oquit o || negb (fits cap_n cap_s o b)) eqn:E; [exact IH|].
       apply orb_false_iff in E. destruct E as [_ E]. apply negb_false_iff in E. unfold fits in E.
       apply negb_true_iff, orb_false_iff in E. destruct E as [E1 E2]. apply N.ltb_ge in E1, E2.
@@ -92,25 +96,25 @@ Section O.
       lia.
     - destruct (take_pend id (opend o)) as [[b pd]|] eqn:T; [|exact IH].
       destruct (take_pend_sum _ _ _ _ T) as [S1 S2].
-      destruct (stopped (ocore o)); simpl; [lia|].
+      destruct (stopped (ocore o) || quitf (ocore o)); simpl; [lia|].
       destruct (core_enq_held (ocore o) b) as [[A B]|[A B]]; rewrite A, B; lia.
     - destruct (negb (oquit o)); [exact IH|]. destruct (take_pend id (opend o)) as [[b pd]|] eqn:T; [|exact IH].
       destruct (take_pend_sum _ _ _ _ T) as [S1 S2]. destruct fx; simpl; lia.
-    - exact IH.
+    - simpl. destruct (core_held_mono (ocore o) SQuit) as [A B]; [intros; discriminate|]. simpl in *. lia.
   Qed.
 
   (* when the queueing succeeds while the workers exist, the core really accepts the batch: the
      share it already holds guarantees that the core's own capacity test passes *)
   Theorem queue_accepts : forall fx h0 steps id b pd,
     let o := orun fx h0 steps in
-    take_pend id (opend o) = Some (b, pd) -> stopped (ocore o) = false ->
+    take_pend id (opend o) = Some (b, pd) -> stopped (ocore o) = false -> quitf (ocore o) = false ->
     held_n (ocore (ostep_run fx o (OQueue id))) = held_n (ocore o) + batch_num b
     /\ osem_n (ostep_run fx o (OQueue id)) = osem_n o /\ osem_s (ostep_run fx o (OQueue id)) = osem_s o.
   Proof.
-    intros fx h0 steps id b pd. cbv zeta. intros T St.
+    intros fx h0 steps id b pd. cbv zeta. intros T St Qf.
     destruct (outer_sem_within_capacity fx h0 steps) as [C1 C2]. set (o := orun fx h0 steps) in *.
     destruct (take_pend_sum _ _ _ _ T) as [S1 S2]. unfold osem_n, osem_s in *.
-    simpl. rewrite T, St. simpl. unfold Processor.enqueue. rewrite St.
+    simpl. rewrite T, St, Qf. simpl. unfold Processor.enqueue. rewrite St, Qf. simpl.
     assert (E : (cap_n <? held_n (ocore o) + batch_num b) || (cap_s <? held_s (ocore o) + batch_size b) = false).
     { apply orb_false_iff. split; apply N.ltb_ge; lia. }
     rewrite E. simpl. lia.
@@ -122,7 +126,7 @@ Section O.
     intros o x. destruct x as [y | b | id | id | ]; simpl.
     - destruct y; simpl; auto. destruct (_ || _); simpl; auto.
     - destruct (_ || _); simpl; auto.
-    - destruct (take_pend id (opend o)) as [[b pd]|]; auto. destruct (stopped (ocore o)); simpl; auto.
+    - destruct (take_pend id (opend o)) as [[b pd]|]; auto. destruct (stopped (ocore o) || quitf (ocore o)); simpl; auto.
     - destruct (negb (oquit o)); auto. destruct (take_pend id (opend o)) as [[b pd]|]; simpl; auto.
     - auto.
   Qed.
